@@ -79,11 +79,29 @@ func CheckC07(c *Ctx) int {
 	_ = os.MkdirAll(fdir, 0o755)
 	var shapes []Ev
 	pagesSeen := 0
+	statsSeen := 0
 	for i, bf := range buildFiles(fdir, c.Pick(24, 240), c.Seed+77, false) {
 		d, err := DecodeFile(bf.Path)
+		stats, serr := TopBucketStats(bf.Path)
 		os.Remove(bf.Path)
 		if err != nil {
 			continue
+		}
+		// Bucket.Stats() of the i-th top-level bucket belongs to the decoder's i-th top-level bucket record
+		var tops []int
+		for _, b := range d.Buckets {
+			if b.TopLevel {
+				tops = append(tops, b.ID)
+			}
+		}
+		if serr != nil || len(stats) != len(tops) {
+			c.Findings = append(c.Findings, Finding{Scenario: Scenario{Name: fmt.Sprintf("shape-%d", i), Kind: "check"}, Spec: "harness",
+				Detail: fmt.Sprintf("Bucket.Stats of the top-level buckets: %v; %d buckets reported, decoder sees %d", serr, len(stats), len(tops))})
+			continue
+		}
+		for j := range stats {
+			stats[j]["id"] = tops[j]
+			statsSeen++
 		}
 		pg, bk := d.Pages, d.Buckets
 		if pg == nil {
@@ -93,11 +111,12 @@ func CheckC07(c *Ctx) int {
 			bk = []BucketShape{}
 		}
 		pagesSeen += len(pg)
-		shapes = append(shapes, Ev{"ev": "Shape", "name": fmt.Sprintf("shape-%d-ps%d-%s", i, bf.Opts.PageSize, bf.Profile.Name), "ps": d.PageSize, "pages": pg, "buckets": bk})
+		shapes = append(shapes, Ev{"ev": "Shape", "name": fmt.Sprintf("shape-%d-ps%d-%s", i, bf.Opts.PageSize, bf.Profile.Name), "ps": d.PageSize, "pages": pg, "buckets": bk, "stats": stats})
 	}
 	c.evalFormat(shapes, 8, "shape")
 	c.Cov["tree_shapes_checked"] = len(shapes)
 	c.Cov["tree_pages_in_shapes"] = pagesSeen
+	c.Cov["bucket_stats_compared"] = statsSeen
 	c.Cov["evaluations"] = o.Counters["decoded"]
 	c.Cov["distinct_nontrivial"] = DistinctNontrivial(o.PerScenario, func(m map[string]int) bool { return m["decoded"] > 3 && m["free"] > 5 })
 	c.Cov["rule"] = "evaluations = independent decodes of the file (after every write transaction and every open) compared by TLC with the specification's tree / freelist / free sets and the partition predicate; non-trivial: >= 4 decodes and > 5 pages freed"
